@@ -225,6 +225,38 @@ def drv_gl_perq(ph, w, a, st):
     return out
 
 
+def _ref_dd_tmp(G_list, q_cart, q_dir_cart, eps, pos, Lambda, tol):
+    """numpy reference model of c/dynmat.c:get_dd (reciprocal-space dipole-dipole sum before the Born charges)."""
+    K = np.asarray(G_list) + np.asarray(q_cart)[None, :]
+    norm = np.linalg.norm(K, axis=1)
+    dp = np.einsum("gi,ij,gj->g", K, eps, K)
+    KK = np.zeros((len(K), 3, 3))
+    big = norm >= tol
+    KK[big] = (K[big, :, None] * K[big, None, :]) / dp[big, None, None] * np.exp(-dp[big] / (4 * Lambda * Lambda))[:, None, None]
+    if q_dir_cart is not None and (~big).any():
+        qd = np.asarray(q_dir_cart)
+        KK[~big] = np.outer(qd, qd) / float(qd @ eps @ qd)
+    dpos = pos[:, None, :] - pos[None, :, :]
+    phase = np.exp(2j * np.pi * np.einsum("ijk,gk->ijg", dpos, np.asarray(G_list)))
+    return np.einsum("gab,ijg->iajb", KK, phase)
+
+
+def ref_recip_dipole_dipole(dm, q_cart, q_dir_cart):
+    """Harness reference model for the bound kernels recip_dipole_dipole / recip_dipole_dipole_q0 (no Python version in the
+    repository: "Python version of dipole-dipole calculation is not well implemented")."""
+    pos = np.array(dm._pcell.positions)
+    born, eps = np.array(dm._born), np.array(dm._dielectric)
+    tol = dm.Q_DIRECTION_TOLERANCE
+    t0 = _ref_dd_tmp(dm._G_list, np.zeros(3), None, eps, pos, dm._Lambda, tol)
+    d0 = np.einsum("imjn,imk,jnl->ikjl", t0, born, born).sum(axis=2)  # (i, k, l)
+    q0 = 0.5 * (d0.real + d0.real.transpose(0, 2, 1)) + 0.5j * (d0.imag - d0.imag.transpose(0, 2, 1))
+    t = _ref_dd_tmp(dm._G_list, q_cart, q_dir_cart, eps, pos, dm._Lambda, tol)
+    dd = np.einsum("imjn,imk,jnl->ikjl", t, born, born)
+    for i in range(len(pos)):
+        dd[i, :, i, :] -= q0[i]
+    return dd * (dm._unit_conversion * 4.0 * np.pi / dm._pcell.volume), q0
+
+
 def drv_thm_iw(ph, w, a, st):
     from phonopy.structure.tetrahedron_method import TetrahedronMethod
 
@@ -653,6 +685,35 @@ def execute(spec):
             d = ph.get_thermal_properties_dict()
             pyref = {"F": np.array(d["free_energy"]), "S": np.array(d["entropy"]), "Cv": np.array(d["heat_capacity"])}
             E.use(variant)
+        elif (driver == "dm_batch" and ph.nac_params is not None and type(ph.dynamical_matrix).__name__ == "DynamicalMatrixWang"
+              and ph.force_constants.shape[0] == ph.force_constants.shape[1]):
+            # Wang NAC: the in-repository Python pieces (charge sum, constant factor, NAC-modified force constants, the
+            # Python dynamical-matrix builder), with the batch kernel's rule that the direction applies at Gamma only
+            E.use("serial")
+            dmw = ph.dynamical_matrix
+            rec = np.array(dmw._rec_lat)
+            qd = a["nac_q_direction"]
+            dms = []
+            for q in a["qpoints"]:
+                q = np.array(q, dtype="double")
+                q_cart = rec @ q
+                if np.linalg.norm(q_cart) < 1e-5:
+                    qc = None if qd is None else rec @ np.array(qd, dtype="double")
+                else:
+                    qc = q_cart
+                if qc is None:
+                    dmw._run(q, lang="Py")
+                else:
+                    constant = dmw._get_constant_factor(qc, dmw._dielectric, dmw._pcell.volume, dmw._unit_conversion)
+                    nac_q = dmw._get_charge_sum(len(dmw._pcell), qc, dmw._born) * constant
+                    backup = dmw._force_constants.copy()
+                    dmw._run_py_Wang_force_constants(dmw._force_constants, nac_q)
+                    dmw._run(q, lang="Py")
+                    dmw._force_constants[:] = backup
+                dms.append(np.array(dmw.dynamical_matrix).copy())
+            pyref = {"dynmat": np.array(dms)}
+            probes["wang_nac_python_reference"] = 1
+            E.use(variant)
         elif driver == "dm_batch" and ph.nac_params is None:
             E.use("serial")
             dms = []
@@ -660,6 +721,27 @@ def execute(spec):
                 ph.dynamical_matrix.run(np.array(q, dtype="double"), lang="Py")
                 dms.append(ph.dynamical_matrix.dynamical_matrix.copy())
             pyref = {"dynmat": np.array(dms)}
+            E.use(variant)
+        if driver == "gl_perq" and type(ph.dynamical_matrix).__name__ == "DynamicalMatrixGL" and not getattr(ph.dynamical_matrix, "_with_full_terms", False):
+            # the Gonze-Lee reciprocal-space kernels against the harness's numpy model, at this run's q-points and direction
+            E.use("serial")
+            dm = ph.dynamical_matrix
+            rec = np.linalg.inv(np.array(dm._pcell.cell))  # columns: reciprocal basis
+            worst, scale_ = 0.0, 1e-300
+            qd = a["nac_q_direction"]
+            for q in list(a["qpoints"][:4]) + [[0.0, 0.0, 0.0]]:
+                q_cart = rec @ np.array(q, dtype="double")
+                qd_cart = None if qd is None else rec @ np.array(qd, dtype="double")
+                got = np.array(dm._get_c_recip_dipole_dipole(np.array(q_cart, dtype="double"), None if qd_cart is None else np.array(qd_cart, dtype="double")))
+                want, q0 = ref_recip_dipole_dipole(dm, q_cart, qd_cart)
+                worst = max(worst, float(np.max(np.abs(got - want))))
+                scale_ = max(scale_, float(np.max(np.abs(want))))
+            d0 = float(np.max(np.abs(np.array(dm._dd_q0) - q0)))
+            if worst > 1e-9 * scale_:
+                violations.append({"class": "reference-divergence", "site": "gl_perq:recip_dipole_dipole", "detail": dict(maxdiff=worst, scale=scale_, ref="harness numpy model of c/dynmat.c get_dd/multiply_borns")})
+            if d0 > 1e-9 * max(1e-300, float(np.max(np.abs(q0)))):
+                violations.append({"class": "reference-divergence", "site": "gl_perq:recip_dipole_dipole_q0", "detail": dict(maxdiff=d0, ref="harness numpy model")})
+            probes["gonze_kernels_checked_against_numpy_model"] = 1
             E.use(variant)
         if pyref is not None:
             # absolute floor on the natural scale of the quantity (thermal properties are O(1..100) kJ/mol, J/K/mol; a
